@@ -11,8 +11,8 @@ import (
 
 func init() {
 	fw.Register(&fw.Check{
-		ID: "C03",
-		Rule: "cases: create requests over all eight patch kinds, optional anchor origin (string / object) and type, hash code 18 or 19, parsed (non-batch) under the algorithm configurations [18], [19], [18,19], [19,18]; per request 8 re-serializations (member order at every depth, insignificant whitespace, \\uXXXX spellings, number spellings) that must give the same DID, and every single-field modification (each suffix-data member, the update commitment, each patch, one character of a hash keeping it well-formed) that must give a different DID or be refused. Oracle: suffix = b64url(multihash(c, H_c(JCS(suffix data)))) with c a configured algorithm named by the suffix's own prefix, ID = namespace ':' suffix, computed by the harness codec from the generator's suffix data. distinct = (patch actions, anchor origin kind, type?, code, configuration, modification kind, verdict).",
+		ID:          "C03",
+		Rule:        "cases: create requests over all eight patch kinds, optional anchor origin (string / object) and type, hash code 18 or 19, parsed (non-batch) under the algorithm configurations [18], [19], [18,19], [19,18]; per request 8 re-serializations (member order at every depth, insignificant whitespace, \\uXXXX spellings, number spellings) that must give the same DID, and every single-field modification (each suffix-data member, the update commitment, each patch, one character of a hash keeping it well-formed) that must give a different DID or be refused. Oracle: suffix = b64url(multihash(c, H_c(JCS(suffix data)))) with c a configured algorithm named by the suffix's own prefix, ID = namespace ':' suffix, computed by the harness codec from the generator's suffix data. distinct = (patch actions, anchor origin kind, type?, code, configuration, modification kind, verdict).",
 		Assumptions: []string{"harness JCS / multihash oracle"},
 		Require:     []string{"accepted", "respellings", "modifications", "modification-refused", "modification-new-did"},
 		Run:         runC03,
@@ -75,6 +75,8 @@ func c03Case(c *fw.Case) {
 		spec.AnchorOrigin, aoKind = map[string]interface{}{"domain": "anchor.example", "weight": r.Intn(5),
 			"big":   fw.Pick(r, []interface{}{float64(1 << 62), 9223372036854775808.0, 18446744073709551615.0, 1e19, 1e20, 123456789012345680000.0, 1e21, 1e22, 4.5, 1e-7}),
 			"rand":  gen.RandDouble(r),
+			"names": gen.RandObject(r, 1), // member names over all planes (UTF-16 vs code-point order), related by prefix, empty
+			"😀":     1, "Ａ": 2, "origin": 3, "origins": 4,
 			"limit": float64(int64(1)<<53) + float64(r.Intn(3))}, "object"
 	}
 	if r.Chance(1, 3) {
@@ -142,7 +144,9 @@ func c03Case(c *fw.Case) {
 		name string
 		f    func(req map[string]interface{})
 	}
-	sd := func(req map[string]interface{}) map[string]interface{} { return req["suffixData"].(map[string]interface{}) }
+	sd := func(req map[string]interface{}) map[string]interface{} {
+		return req["suffixData"].(map[string]interface{})
+	}
 	dl := func(req map[string]interface{}) map[string]interface{} { return req["delta"].(map[string]interface{}) }
 	oneChar := func(s string) string {
 		// change one character inside the digest part, keeping base64url well-formedness and length
@@ -169,12 +173,22 @@ func c03Case(c *fw.Case) {
 	mods := []mod{
 		{"suffixData.deltaHash-letter-case-swapped", func(q map[string]interface{}) { sd(q)["deltaHash"] = caseSwap(fmt.Sprint(sd(q)["deltaHash"])) }},
 		{"suffixData.deltaHash-one-char", func(q map[string]interface{}) { sd(q)["deltaHash"] = oneChar(fmt.Sprint(sd(q)["deltaHash"])) }},
-		{"suffixData.recoveryCommitment-one-char", func(q map[string]interface{}) { sd(q)["recoveryCommitment"] = oneChar(fmt.Sprint(sd(q)["recoveryCommitment"])) }},
-		{"suffixData.recoveryCommitment-other-key", func(q map[string]interface{}) { sd(q)["recoveryCommitment"] = gen.NewKey(r, gen.Ed25519).Commitment(code) }},
-		{"suffixData.anchorOrigin-changed", func(q map[string]interface{}) { sd(q)["anchorOrigin"] = "https://other.example/" + fmt.Sprint(r.Intn(1000)) }},
+		{"suffixData.recoveryCommitment-one-char", func(q map[string]interface{}) {
+			sd(q)["recoveryCommitment"] = oneChar(fmt.Sprint(sd(q)["recoveryCommitment"]))
+		}},
+		{"suffixData.recoveryCommitment-other-key", func(q map[string]interface{}) {
+			sd(q)["recoveryCommitment"] = gen.NewKey(r, gen.Ed25519).Commitment(code)
+		}},
+		{"suffixData.anchorOrigin-changed", func(q map[string]interface{}) {
+			sd(q)["anchorOrigin"] = "https://other.example/" + fmt.Sprint(r.Intn(1000))
+		}},
 		{"suffixData.type-changed", func(q map[string]interface{}) { sd(q)["type"] = "zz" + fmt.Sprint(r.Intn(1000)) }},
-		{"delta.updateCommitment-one-char", func(q map[string]interface{}) { dl(q)["updateCommitment"] = oneChar(fmt.Sprint(dl(q)["updateCommitment"])) }},
-		{"delta.updateCommitment-other-key", func(q map[string]interface{}) { dl(q)["updateCommitment"] = gen.NewKey(r, gen.Ed25519).Commitment(code) }},
+		{"delta.updateCommitment-one-char", func(q map[string]interface{}) {
+			dl(q)["updateCommitment"] = oneChar(fmt.Sprint(dl(q)["updateCommitment"]))
+		}},
+		{"delta.updateCommitment-other-key", func(q map[string]interface{}) {
+			dl(q)["updateCommitment"] = gen.NewKey(r, gen.Ed25519).Commitment(code)
+		}},
 		{"delta.patch-appended", func(q map[string]interface{}) {
 			dl(q)["patches"] = append(dl(q)["patches"].([]interface{}), gen.PAddAka("did:example:injected"))
 		}},
